@@ -510,6 +510,8 @@ func localHistories(c *common.Ctx, r *common.Rand, idx int, wal bool) error {
 		script = script2()
 	} else if idx == -3 {
 		script = script3
+	} else if idx == -8 {
+		script = script3 // at the largest page size
 	} else if idx == -7 {
 		script = hist.UnwrittenGrowthSteps()
 	} else if idx <= -4 {
@@ -527,6 +529,9 @@ func localHistories(c *common.Ctx, r *common.Rand, idx int, wal bool) error {
 	}
 	if idx <= -4 {
 		cfg.PageSize = []int{512, 1024, 4096}[(-idx-4)%3]
+	}
+	if idx == -8 {
+		cfg.PageSize, cfg.BackToRollback = 65536, true
 	}
 	if idx == -3 {
 		cfg.BackToRollback = true
@@ -802,6 +807,9 @@ func Run(c *common.Ctx) error {
 		return err
 	}
 	if err := localHistories(c, c.Rng.Fork(), -7, false); err != nil {
+		return err
+	}
+	if err := localHistories(c, c.Rng.Fork(), -8, true); err != nil {
 		return err
 	}
 	for i := 0; i < c.Pick(4, 30); i++ {
